@@ -33,6 +33,7 @@ class JointDegreeFunction(JointDegree):
         """
         Evaluates probability directly by generating all possible joint degrees.
         """
+        self._jdd = {}
         # build list of lists of possible degrees in each dimension
         ks = [
             list(range(kmin, kmax + 1)) for kmin, kmax in self._low_high_degree_bounds
